@@ -234,4 +234,22 @@ theorem collision_of_item_eq {sha : Bytes → Bytes} (h32 : ∀ x, (sha x).lengt
     · exact ⟨p, q, hpq, hp⟩
   · exact ⟨c, d, hcd, hc⟩
 
+/-- a list without unreadable members yields a digest -/
+theorem digest_ok_of_readable (sha : Bytes → Bytes) {files : List (Path × Entry)}
+    (h : ∀ pe ∈ files, pe.2 ≠ .unreadable) : ∃ d, digest sha files = .ok d := by
+  rw [digest_eq]
+  have : files.any isUnreadable = false := by
+    apply List.any_eq_false.mpr
+    intro pe hpe; have := h pe hpe
+    obtain ⟨p, e⟩ := pe
+    cases e <;> simp_all [isUnreadable]
+  simp [this]
+
+/-- an unreadable member makes the digest an error -/
+theorem digest_error_of_unreadable (sha : Bytes → Bytes) {files : List (Path × Entry)} {p : Path}
+    (h : (p, Entry.unreadable) ∈ files) : digest sha files = .error .unreadable := by
+  rw [digest_eq]
+  have : files.any isUnreadable = true := List.any_eq_true.mpr ⟨_, h, rfl⟩
+  simp [this]
+
 end Spok.Hash
